@@ -100,6 +100,12 @@ func GenPool(r *Rng, n int, ics []string) []string {
 		}
 		add(root + pick(r, tok1) + pick(r, tails))
 	}
+	if r.Pct(10) {
+		// a route that ends in a parameter, and one longer route below it
+		t := pick(r, tok1)
+		add(rs[0] + "e/" + t)
+		add(rs[0] + "e/" + t + pick(r, []string{"/posts", "/", "/x/y"}))
+	}
 	if r.Pct(8) {
 		// a grid: five or more literal siblings that all have children, no parameter sibling, and a late
 		// pattern that splits one of them
